@@ -94,7 +94,27 @@ TrExpand ==
     /\ l' = l + 1
     /\ TLCSet(1, l + 1)
 
-TNext == TrExpand
+(* ---- the item compiled by rustc with the real macros: its diagnostics (C18) ---------- *)
+(* E.errors: every error rustc reported inside the item: [code, msg, member] -- code "" for a diagnostic raised by a   *)
+(* macro, member = the method whose lines the primary span lies in ("" = outside every method)                        *)
+(* a panic of the macro ("custom attribute panicked") is not a diagnostic: it names neither the rule nor the place *)
+MacroDiags(e) == {i \in 1..Len(e.errors) : e.errors[i].code = "" /\ ~e.errors[i].panicked}
+TrDiag ==
+    /\ l <= Len(Rec) /\ E.ev = "Diag"
+    /\ Chk("BIND", "event_index_names_this_item", l, E.ix \in 1..Len(Items) /\ Items[E.ix].id = E.id)
+    /\ LET it == Items[E.ix] IN
+       /\ Chk("C18", "a_valid_program_compiles", l, it.expect = "clean" => Len(E.errors) = 0)
+       /\ Chk("C18", "a_program_breaking_a_documented_rule_fails_to_compile_with_a_diagnostic_of_the_framework", l,
+              it.expect = "dirty" => MacroDiags(E) # {})
+       /\ Chk("C18", "the_framework_reports_the_offence_instead_of_panicking", l,
+              \A i \in 1..Len(E.errors) : ~E.errors[i].panicked)
+       /\ Chk("C18", "the_diagnostic_points_at_the_offence", l,
+              (it.expect = "dirty" /\ Len(it.sites) > 0) =>
+                  \E i \in MacroDiags(E) : \E j \in 1..Len(it.sites) : E.errors[i].member = it.sites[j])
+    /\ l' = l + 1 /\ TLCSet(1, l + 1)
+    /\ UNCHANGED eph
+
+TNext == TrExpand \/ TrDiag
 TSpec == TInit /\ [][TNext]_tvars
 
 TraceAccepted ==
